@@ -2,7 +2,7 @@
 PROP = {
     "title": "Encoders are deterministic and all their variants agree",
     "run_modules": ["RunC16"],
-    "n": {"quick": 800, "thorough": 20000},
+    "n": {"quick": 800, "thorough": 8000},
     "shards": {"quick": 16, "thorough": 64},
     "level": "proof",
     "technique": "Coq proof that the Map encoder model is invariant under every permutation of every entry list (= every Go hash-iteration order), "
